@@ -7,10 +7,11 @@ import driver
 reg = driver.load_registry()
 props = [json.loads(l) for l in open(os.path.join(V, 'properties.jsonl')) if l.strip()]
 checks, na = [], []
+claimed = set(json.load(open(os.path.join(V, 'harness', 'claimed.json'))))
 for p in props:
     pid = p['id']
     r = reg['properties'].get(pid)
-    if not r or r.get('unclaimed'):
+    if not r or r.get('unclaimed') or pid not in claimed:
         na.append({'property_id': pid, 'reason': (reg.get('not_applicable') or {}).get(pid, 'check not built yet in this round; see DESIGN.md for the planned generator and oracle')})
         continue
     engines = sorted({x['engine'] for x in r['runs']})
